@@ -946,6 +946,10 @@ impl<'a> Elab<'a> {
         // last instruction: for stream-like folds prefer an explicit one so that execution
         // can continue after the fold
         let last_i = match last {
+            // clean domain: the last instruction of a stream-like fold is `(null)`: it runs once per
+            // generation chain, for whichever value a peer iterates last, so its results depend on
+            // the peer's view of the generations and are lost on merge (K9)
+            Some(_) if streamlike && self.cfg.stream_fold_par_only => Some(Box::new(I::Null)),
             Some(l) => Some(Box::new(self.el(l, env, inner_ctx))),
             None => {
                 if streamlike && c[2] % 4 != 0 {
